@@ -897,6 +897,53 @@ func (ex *Ex) trCall(env *Env, e *Expr) (SV, error) {
 		}
 		lv := ex.loadFrom(env.fr, env.st, Val{T: a.T}, p.Elem(), nil)
 		return SV{T: lv.T, Ty: SType{G: p.Elem()}}, nil
+	case "seqContains":
+		// seqContains(s, x): exists i in range with s[i] == x
+		if err := need(2); err != nil {
+			return SV{}, err
+		}
+		sl, ok := args[0].Ty.G.Underlying().(*types.Slice)
+		if !ok {
+			return SV{}, env.errf(e, "seqContains on non-slice")
+		}
+		es0 := w.SortOf(sl.Elem())
+		ex.nfresh++
+		iv := Var(fmt.Sprintf("i$sc%d", ex.nfresh), SInt)
+		return SV{T: Exists([]*T{iv}, And(Ge(iv, IntLit(0)), Lt(iv, w.SliceLen(args[0].T)), Eq(Select(w.SliceArr(args[0].T, es0), iv), args[1].T))), Ty: tBool}, nil
+	case "seqAppend":
+		// seqAppend(s, x): s ++ [x]
+		if err := need(2); err != nil {
+			return SV{}, err
+		}
+		sl2, ok := args[0].Ty.G.Underlying().(*types.Slice)
+		if !ok {
+			return SV{}, env.errf(e, "seqAppend on non-slice")
+		}
+		es1 := w.SortOf(sl2.Elem())
+		ln := w.SliceLen(args[0].T)
+		return SV{T: w.MkSlice(es1, Store(w.SliceArr(args[0].T, es1), ln, args[1].T), Add(ln, IntLit(1)), tFalse), Ty: args[0].Ty}, nil
+	case "seq":
+		// seq(a, b, ...): a slice value with the given elements (element type of the first)
+		if len(args) == 0 || args[0].Ty.G == nil && !args[0].IsNil {
+			return SV{}, env.errf(e, "seq needs typed elements")
+		}
+		var et types.Type
+		for _, a := range args {
+			if a.Ty.G != nil {
+				et = a.Ty.G
+				break
+			}
+		}
+		if et == nil {
+			return SV{}, env.errf(e, "seq needs at least one typed element")
+		}
+		es := w.SortOf(et)
+		arr := App("as-const$"+es.Mangle(), ArraySort(SInt, es), w.Zero(et))
+		for i, a := range args {
+			a = ex.coerceNil(a, SType{G: et})
+			arr = Store(arr, IntLit(int64(i)), a.T)
+		}
+		return SV{T: w.MkSlice(es, arr, IntLit(int64(len(args))), tFalse), Ty: SType{G: types.NewSlice(et)}}, nil
 	case "ref":
 		// the reference itself (maps otherwise denote their content under old())
 		return SV{T: args[0].T, Ty: SType{G: types.Typ[types.UnsafePointer]}}, nil
